@@ -746,16 +746,25 @@ func init() {
 		if _, err := parse.Term(text); err == nil {
 			out.TermOK = true
 		}
+		// a base term as the argument of a fact m(...); an atom as a fact of its own
 		unit, err := parse.Unit(strings.NewReader("m(" + text + "\n)."))
-		if err != nil || len(unit.Clauses) != 1 || len(unit.Decls) != 1 {
+		if err == nil && len(unit.Clauses) == 1 && len(unit.Decls) == 1 {
+			cl := unit.Clauses[0]
+			if cl.Head.Predicate.Symbol == "m" && len(cl.Head.Args) == 1 && cl.Premises == nil && cl.HeadTime == nil && cl.Transform == nil {
+				if j, ok := termJ(cl.Head.Args[0]); ok {
+					out.Tree = j
+				}
+			}
 			return out, nil
 		}
-		cl := unit.Clauses[0]
-		if cl.Head.Predicate.Symbol != "m" || len(cl.Head.Args) != 1 || cl.Premises != nil || cl.HeadTime != nil || cl.Transform != nil {
-			return out, nil
-		}
-		if j, ok := termJ(cl.Head.Args[0]); ok {
-			out.Tree = j
+		unit, err = parse.Unit(strings.NewReader(text + "\n."))
+		if err == nil && len(unit.Clauses) == 1 && len(unit.Decls) == 1 {
+			cl := unit.Clauses[0]
+			if cl.Premises == nil && cl.HeadTime == nil && cl.Transform == nil {
+				if j, ok := termJ(cl.Head); ok {
+					out.Tree = j
+				}
+			}
 		}
 		return out, nil
 	})
